@@ -167,10 +167,10 @@ FEATURES = [
     # element declarations / content models
     "empty-child", "empty-child-star", "any-child", "mixed-child", "mixed-root", "pcdata-root", "pcdata-star", "occurs-star", "occurs-plus",
     "seq-optional", "seq-star", "seq-plus", "seq-with-occurs", "choice", "choice-optional", "choice-star", "choice-plus", "choice-branch-repeats",
-    "choice-of-sequences", "seq-in-choice", "root-choice", "nested-element", "name-twice", "recursion", "choice-three-star",
+    "choice-of-sequences", "seq-in-choice", "root-choice", "nested-element", "name-twice", "recursion", "choice-three-star", "mixed-recursive",
     # attribute lists
     "attr-required", "attr-default", "attr-fixed", "attr-default-special", "attr-id-idref", "attr-nmtoken", "attr-nmtokens-default", "attr-enum",
-    "attr-enum-default", "attr-enum-fixed", "attr-child-default", "attr-enum-two-elements", "attr-xml-lang", "attr-default-empty", "attr-foreign-prefixes",
+    "attr-enum-default", "attr-enum-fixed", "attr-child-default", "attr-enum-two-elements", "attr-xml-lang", "attr-default-empty", "attr-foreign-prefixes", "attr-enum-single",
     # xmlns declarations
     "xmlns-default-root", "xmlns-default-all", "xmlns-prefix-root", "xmlns-prefix-all",
 ]
@@ -180,7 +180,7 @@ ROOT_REPLACING = {"mixed-root", "pcdata-root", "root-choice"}
 # features that append a particle to (or change an item of) the root sequence
 ROOT_SEQ = {"empty-child", "empty-child-star", "any-child", "mixed-child", "pcdata-star", "occurs-star", "occurs-plus", "seq-optional", "seq-star", "seq-plus",
             "seq-with-occurs", "choice", "choice-optional", "choice-star", "choice-plus", "choice-branch-repeats", "choice-of-sequences", "seq-in-choice",
-            "nested-element", "name-twice", "recursion", "choice-three-star"}
+            "nested-element", "name-twice", "recursion", "choice-three-star", "mixed-recursive"}
 CONFLICTS = [
     {"occurs-plus", "name-twice"},          # (a+, b?, a) is not deterministic
     {"xmlns-default-root", "xmlns-default-all", "xmlns-prefix-root", "xmlns-prefix-all"},
@@ -269,6 +269,13 @@ def apply_feature(d: Dtd, feat: str) -> None:
         seq.items.append(Name("n", "?"))
     elif feat == "name-twice":
         seq.items.append(Name("a"))
+    elif feat == "mixed-recursive":
+        # mixed content that contains itself: <!ELEMENT em (#PCDATA|em|a)*>
+        d.decl("em", Mixed(["em", "a"]))
+        seq.items.append(Name("em", "?"))
+    elif feat == "attr-enum-single":
+        root.attrs.append(AttDef("flag", "ENUM", "IMPLIED", enum=["yes"]))
+        d.elems["a"].attrs.append(AttDef("once", "ENUM", "IMPLIED", enum=["only"]))
     elif feat == "recursion":
         d.decl("sec", Grp("seq", [Name("a"), Name("sec", "*")]), [AttDef("lvl", "CDATA", "IMPLIED")])
         seq.items.append(Name("sec", "*"))
